@@ -12,9 +12,12 @@ TEXT = {
  'C13': ('Rocq theorems about slice and row read items in both representations: every accessor (len, is_empty, get, iteration, owned conversion) denotes the item\'s own elements, get(k) panics for every k >= len, and the slice iterators are exact-size state machines (the hint before every next is the number of items left) + correspondence on all positions 0..len+2 and usize::MAX-5..usize::MAX, ExactSizeIterator::len asked before every next',
          'defect D10 (slice iterators with the default size_hint) repaired by a fix: commit',
          'Rocq proof (read-item layer) + model/impl differential'),
- 'C01': ('generic contract theorems (push_ok + per-combinator RegionOK instances = induction over all compositions, all values, all histories) + correspondence of the executable model with the crate on a 58-entry typed catalogue in two build profiles (tuple regions of arity 3 and 5 included: proved isomorphic to the nested pairs they are run as); catalogue_full: every catalogue entry (bar D8 and collapse-over-f64) provably meets the contract',
+ 'C01': ('generic contract theorems (push_ok + per-combinator RegionOK instances = induction over all compositions, all values, all histories) + correspondence of the executable model with the crate on a 70-entry typed catalogue in two build profiles (tuple regions of arity 3 and 5 included: proved isomorphic to the nested pairs they are run as); catalogue_full: every catalogue entry (bar D8 and collapse-over-f64) provably meets the contract',
          'theorem over any region meeting RegionOK; D8 composition class excluded (Dense) and reported as known finding; floats under CollapseSequence up to IEEE ==',
          'Rocq contract proof + model/impl differential'),
+ 'C19': ('Rocq theorems about the executable model of Stride / IndexList / IndexOptimized: the documented cost rule for EVERY pushed sequence (io_cost_rule: heap bytes = spill charge of what the maximal stride-matching prefix leaves over; 4 bytes per entry up to the first value >= 2^32, 8 from there on), zero heap for strided-plus-repeats sequences, zero index bytes for a FlatStack over consecutive-pair and over columns regions for any number of items + correspondence of the model with the crate (exhaustive over the transition-covering alphabet)',
+         'all N < 2^64; FlatStack clause below 2^64 items',
+         'Rocq proof (index-container model) + model/impl differential'),
 }
 DEFAULT = ('Rocq theorems about the hand-written executable model (unbounded in sizes, histories and nesting) + correspondence check of that model against the crate',
            'see DESIGN.md section 8 (trusted base) and the property section',
